@@ -289,6 +289,20 @@ def describe(o):
     return o
 
 
+def _sent_canon(desc):
+    """What a described request list sends, whatever the packets' order and however the members are shared out between Multiple Service
+    packets (which the property does not fix): (sorted members of all multi-service packets, sorted other requests)."""
+    if not isinstance(desc, list):
+        return desc
+    members, others = [], []
+    for d in desc:
+        if isinstance(d, tuple) and d and d[0] == "Multi" and isinstance(d[2], list) and d[2]:
+            members.extend(repr(m) for m in d[2])
+        else:
+            others.append(repr(d))
+    return (sorted(members), sorted(others))
+
+
 def _driver(**kw):
     base = dict(_sequence="SEQ", _cfg={"use_instance_ids": "UID"}, connection_size=500, _micro800=False)
     base.update(kw)
@@ -364,7 +378,7 @@ def d2_12(ctx):
         got = describe(res) if kind == "return" else res
         errs = {i: str(p.get("error", ""))[:19] for i, p in parsed.items() if p.get("error")}
         want_errs = {6: "Tag doesn't exist -", 7: "Error encoding valu", 8: "Invalid Tag Request", 9: "Invalid Tag Request"}
-        ctx.check(kind == "return" and got == want and errs == want_errs, key, fn, "plain writes grouped into one multi-service packet, the oversized one fragmented, bits of d2 merged (id -1), d3 separate (id -2), four requests refused with their own error",
+        ctx.check(kind == "return" and _sent_canon(got) == _sent_canon(want) and errs == want_errs, key, fn, "plain writes sent as members of multi-service packets, the oversized one fragmented, bits of d2 merged (id -1), d3 separate (id -2), four requests refused with their own error",
                   f"multi-request builder gives {kind} {got!r} with errors {errs!r}; expected {want!r} with errors {want_errs!r}")
     # grouping by connection size
     parsed = {i: _wparsed(i, f"t{i}", value=i) for i in range(4)}
@@ -436,8 +450,8 @@ def d1_15(ctx):
     parsed = {0: _parsed(0, "small"), 1: _parsed(1, "bad", error="nope"), 2: _parsed(2, "big"), 3: _parsed(3, "s3{4}", "s3", elements=4)}
     kind, res = run_function(ctx, lx.module, fn, {"self": _driver(), fn.args.args[1].arg: parsed}, call_hook=chain(size_hook, packet_markers([])), deep=False)
     rt = lambda tag, n, rid: ("RT", "SEQ", tag, n, rid, "UID", None, True)  # noqa: E731
-    _report(ctx, ckey(lx.key + "._read_build_multi_requests", "witness:mixed requests"), fn, "mixed requests", (kind, describe(res) if kind == "return" else res),
-            ("return", [("Multi", "SEQ", [rt("small", 1, 0), rt("s3", 4, 3)]), ("RTF", "from", rt("big", 1, 2), "SEQ", ())]), "_read_build_multi_requests")
+    _report(ctx, ckey(lx.key + "._read_build_multi_requests", "witness:mixed requests"), fn, "mixed requests", (kind, _sent_canon(describe(res)) if kind == "return" else res),
+            ("return", _sent_canon([("Multi", "SEQ", [rt("small", 1, 0), rt("s3", 4, 3)]), ("RTF", "from", rt("big", 1, 2), "SEQ", ())])), "_read_build_multi_requests")
     parsed = {i: _parsed(i, f"t{i}") for i in range(5)}
     big_hook = lambda call, env, it: 150 if (call_name(call) or "") == "_tag_return_size" else UNKNOWN  # noqa: E731
     kind, res = run_function(ctx, lx.module, fn, {"self": _driver(connection_size=500), fn.args.args[1].arg: parsed}, call_hook=chain(big_hook, packet_markers([])), deep=False)
@@ -494,9 +508,14 @@ def d1_15(ctx):
             ctx.undecided(key, fnm, f"_read_build_multi_requests not foldable when the first request fills a packet: {res}")
         else:
             groups = [[r.tag for r in m.requests] if isinstance(m, Obj) and m.__dict__.get("kind") == "Multi" else (m.__dict__.get("kind"), m.__dict__.get("tag")) if isinstance(m, Obj) else m for m in res] if kind == "return" and isinstance(res, list) else res
-            # alone in a packet of its own or read by fragments: either is within the connection size (the exact bounds are D4.12)
-            ctx.check(groups in ([["edge"], ["s1", "s2"]], [["s1", "s2"], ("RTF", "edge")]), key, fnm, "a first request that fills a packet goes alone (or by fragments), the following ones share a packet, no empty packet",
-                      f"with a first request whose estimated reply ({edge} + 22 bytes) fills a 500-byte packet the builder gives {groups!r}; expected [['edge'], ['s1', 's2']] or [['s1', 's2'], ('RTF', 'edge')]")
+            # alone in a packet that fits or read by fragments; the others share packets in any way; nothing empty, nothing twice (the
+            # exact bounds are D4.12's)
+            ok_ = isinstance(groups, list) and all((isinstance(g, list) and g) or (isinstance(g, tuple) and g[0] == "RTF") for g in groups)
+            sent_ = sorted([t for g in groups if isinstance(g, list) for t in g] + [g[1] for g in groups if isinstance(g, tuple)]) if ok_ else None
+            sz_ = {"edge": edge, "s1": 10, "s2": 10}
+            fits_ = ok_ and all(8 + sum(10 + sz_.get(t, 0) for t in g) <= 500 for g in groups if isinstance(g, list))
+            ctx.check(ok_ and sent_ == ["edge", "s1", "s2"] and fits_, key, fnm, "a first request that fills a packet goes alone (or by fragments), the following ones are still sent, no empty packet",
+                      f"with a first request whose estimated reply ({edge} + 22 bytes) fills a 500-byte packet the builder gives {groups!r}; expected every request once, no empty packet, every solicited reply within 500 bytes")
         parsed = {0: _parsed(0, "big"), 1: _parsed(1, "big")}
         kind, res = run_function(ctx, lx.module, fnm, {"self": _driver(connection_size=500), fnm.args.args[1].arg: parsed}, call_hook=chain(size_hook, packet_markers([])), deep=False)
         key = ckey(lx.key + "._read_build_multi_requests", "witness:only fragmented requests")
